@@ -1164,9 +1164,100 @@ func (n *node) send(rs *reqSpec) (issued bool, tok tokenResponse, f reqFacts, re
 type latticeCase struct {
 	Base    int      `json:"base"`
 	Defects []string `json:"defects"`
+	// array cases: an envelope of 2-3 presentations, one per kind, the submission mapping into position Map
+	Kinds []string `json:"kinds,omitempty"`
+	Map   int      `json:"map,omitempty"`
+}
+
+// presentation kinds of the array cases. Carriers hold one credential per descriptor of the definition, so each of them
+// could fulfil it; the defect (if any) sits in the presentation's own signature or in its LAST credential.
+var vpKinds = []string{"ok", "badvp", "forged", "revoked", "expired", "empty", "other"}
+
+func (e *env) kindVP(kind string, signer *party, def *definition) vpSpec {
+	v := vpSpec{Signer: signer, NbfIn: i64(-1), ExpIn: i64(4), Nonce: uuid.NewString()}
+	if kind == "other" {
+		v.Signer = e.other // another party, with its OWN (valid) credentials
+	}
+	if kind != "empty" {
+		for _, d := range def.Descriptors {
+			v.Creds = append(v.Creds, credSpec{Type: d.Type, Subject: v.Signer, Value: "array-" + d.Type})
+		}
+	}
+	if n := len(v.Creds); n > 0 {
+		switch kind {
+		case "forged":
+			v.Creds[n-1].BadSig = true
+		case "revoked":
+			v.Creds[n-1].Revoked = true
+		case "expired":
+			v.Creds[n-1].Expired = true
+		}
+	}
+	if kind == "badvp" {
+		v.SignKey = e.mallory.key
+	}
+	return v
+}
+
+// kindSequences: every sequence of kinds of length 2..maxLen x every position that carries credentials as mapping target
+func kindSequences(maxLen int) (out []latticeCase) {
+	var rec func(cur []string)
+	rec = func(cur []string) {
+		if len(cur) >= 2 {
+			for p, k := range cur {
+				if k != "empty" {
+					out = append(out, latticeCase{Kinds: append([]string{}, cur...), Map: p})
+				}
+			}
+		}
+		if len(cur) == maxLen {
+			return
+		}
+		for _, k := range vpKinds {
+			rec(append(cur, k))
+		}
+	}
+	rec(nil)
+	return
+}
+
+func (e *env) runArrayCase(c latticeCase) {
+	r := e.r
+	n := e.newNode()
+	def := &e.scopes["twoscope"][0]
+	rs := reqSpec{Scope: "twoscope", Definition: def.ID, ClientID: "https://client.c02.example/oauth2/holder"}
+	for _, k := range c.Kinds {
+		v := e.kindVP(k, e.holder, def)
+		v.Aud = []string{asURL}
+		rs.VPs = append(rs.VPs, v)
+	}
+	for i, d := range def.Descriptors {
+		rs.Entries = append(rs.Entries, descEntry{ID: d.ID, VP: c.Map, Cred: i, Format: "jwt_vc"})
+	}
+	issued, tok, f, ok, clause, status := n.send(&rs)
+	r.Eval(fmt.Sprintf("array|%s|%d", strings.Join(c.Kinds, ","), c.Map))
+	if issued {
+		r.Outcome("array:issued")
+	} else {
+		r.Outcome(fmt.Sprintf("array:refused:%d:%s", status, tok.Error))
+	}
+	if issued && !ok {
+		r.Violation("C02|vp_token|issued-although-reference-refuses|"+clause,
+			fmt.Sprintf("token issued for an envelope of presentations %v (submission maps into position %d) that the reference predicate refuses: %s — EVERY presented presentation must verify", c.Kinds, c.Map, clause), c)
+	}
+	if !issued && ok {
+		r.AddExtra("acceptable_but_refused", 1)
+	}
+	if issued && ok {
+		n.checkIntrospection(tok.AccessToken, f, "array", c)
+	}
 }
 
 func (e *env) runLatticeCase(c latticeCase, al []defect) {
+	if len(c.Kinds) > 0 {
+		e.runArrayCase(c)
+		return
+	}
 	r := e.r
 	n := e.newNode()
 	rs := e.baseRequest(c.Base, "twoscope")
@@ -1410,6 +1501,18 @@ func TestVerifC02Lattice(t *testing.T) {
 				r.Sample(c)
 			}
 		}
+	}
+	// envelopes of 2-3 presentations in every order over the presentation kinds, mapping into every carrying position
+	r.Bound("presentations_per_envelope", 3)
+	for _, c := range kindSequences(3) {
+		idx++
+		if !r.Mine(idx) {
+			continue
+		}
+		if r.Expired() {
+			return
+		}
+		e.runArrayCase(c)
 	}
 }
 
@@ -1893,9 +1996,16 @@ type flowAnswer struct {
 	Nonce string `json:"nonce"` // valid | stale | random | missing
 	State string `json:"state"` // valid | other-session | random
 	Aud   string `json:"aud"`   // "" = the audience asked for, else the name of an audience near-miss
+	// array answers: vp_token is an array of presentations, one per kind (same nonce, audience, validity); the submission
+	// for the definition asked for maps into position Map via path_nested
+	Kinds []string `json:"kinds,omitempty"`
+	Map   int      `json:"map,omitempty"`
 }
 
 func (a flowAnswer) String() string {
+	if len(a.Kinds) > 0 {
+		return fmt.Sprintf("[%s]->%d", strings.Join(a.Kinds, ","), a.Map)
+	}
 	s := a.Def
 	if a.Nonce != "valid" {
 		s += ",nonce=" + a.Nonce
@@ -2089,31 +2199,58 @@ func (fs *flowSession) answer(a flowAnswer, otherState string, prevFulfilled str
 	case "random":
 		state = uuid.NewString()
 	}
-	vp := e.buildVP(&v)
+	vp := ""
+	if len(a.Kinds) > 0 && def != nil {
+		var raws []string
+		for _, k := range a.Kinds {
+			kv := e.kindVP(k, signer, def)
+			kv.Aud, kv.Nonce, kv.ExpIn = []string{req.Audience}, req.Nonce, i64(120)
+			raws = append(raws, e.buildVP(&kv))
+		}
+		b, _ := json.Marshal(raws)
+		vp = string(b)
+		entries = nil
+		for i, desc := range def.Descriptors {
+			entries = append(entries, map[string]any{"id": desc.ID, "format": "ldp_vp", "path": fmt.Sprintf("$[%d]", a.Map),
+				"path_nested": map[string]any{"id": desc.ID, "format": "jwt_vc", "path": fmt.Sprintf("$.verifiableCredential[%d]", i)}})
+		}
+	} else {
+		vp = e.buildVP(&v)
+	}
 	sub, _ := json.Marshal(map[string]any{"id": uuid.NewString(), "definition_id": defID, "descriptor_map": entries})
 	form := url.Values{"vp_token": {vp}, "presentation_submission": {string(sub)}, "state": {state}}
 
 	// reference: does this answer, as sent, fulfil a definition of this session's scope?
 	f := e.facts(url.Values{"assertion": {vp}, "presentation_submission": {string(sub)}, "scope": {fs.scope}})
-	vf := f.VPs[0]
+	// EVERY presented presentation has to satisfy every clause, not only the mapped or the last one
 	why := ""
-	switch {
-	case state != req.State:
+	if state != req.State {
 		why = "state"
-	case vf.Nonce != req.Nonce || fs.usedN[vf.Nonce]:
-		why = "nonce"
-	case !has(vf.Aud, tenantURL(fs.tenant)):
-		why = "audience"
-	case !vf.SigOK || vf.Exp <= f.SentAt:
-		why = "vp-verification"
-	case len(vf.Creds) == 0:
-		why = "no-credentials"
 	}
-	for _, c := range vf.Creds {
-		if why == "" && !(c.SigOK && c.Subject == vf.Signer && (c.Exp == 0 || c.Exp > f.SentAt)) {
-			why = "vc-verification"
+	nCreds := 0
+	for _, vf := range f.VPs {
+		switch {
+		case why != "":
+		case vf.Nonce != req.Nonce || fs.usedN[vf.Nonce]:
+			why = "nonce"
+		case !has(vf.Aud, tenantURL(fs.tenant)):
+			why = "audience"
+		case vf.Signer != f.VPs[0].Signer:
+			why = "presentations-of-different-signers"
+		case !vf.SigOK || vf.Exp <= f.SentAt:
+			why = "vp-verification"
+		}
+		for _, c := range vf.Creds {
+			nCreds++
+			if why == "" && !(c.SigOK && c.Subject == vf.Signer && (c.Exp == 0 || c.Exp > f.SentAt) && !e.revoked[c.ID]) {
+				why = "vc-verification"
+			}
 		}
 	}
+	if why == "" && nCreds == 0 {
+		why = "no-credentials"
+	}
+	vf := f.VPs[0]
 	refOK := why == ""
 	var refDef *definition
 	for i := range e.scopes[fs.scope] {
@@ -2313,6 +2450,22 @@ func TestVerifC02AuthFlow(t *testing.T) {
 	for _, nm := range audienceNearMisses() {
 		alphabetA = append(alphabetA, flowAnswer{Def: "asked", Nonce: "valid", State: "valid", Aud: nm.Name})
 	}
+	// array answers are offered as the first answer and after an all-honest prefix (i.e. at the user-wallet step too);
+	// quick tier: arrays of three only as the first answer at the default tenant
+	allowArray := func(c flowCase, a flowAnswer) bool {
+		for _, p := range c.Answers {
+			if p.Def != "asked" || p.Nonce != "valid" || p.State != "valid" || p.Aud != "" || len(p.Kinds) > 0 {
+				return false
+			}
+		}
+		if len(a.Kinds) > 2 && !r.Thorough() && (len(c.Answers) > 0 || c.Tenant != subject) {
+			return false
+		}
+		return true
+	}
+	for _, kc := range kindSequences(3) {
+		alphabetA = append(alphabetA, flowAnswer{Def: "asked", Nonce: "valid", State: "valid", Kinds: kc.Kinds, Map: kc.Map})
+	}
 	// vacuity guard: honest flows end with a token
 	for _, scope := range []string{"twoscope", "bothscope"} {
 		c := flowCase{Scope: scope, Tenant: subject}
@@ -2331,6 +2484,9 @@ func TestVerifC02AuthFlow(t *testing.T) {
 		for _, a := range alphabetA {
 			if r.Expired() {
 				return
+			}
+			if len(a.Kinds) > 0 && !allowArray(c, a) {
+				continue
 			}
 			nc := flowCase{Scope: c.Scope, Tenant: c.Tenant, Answers: append(append([]flowAnswer{}, c.Answers...), a)}
 			mine := true
